@@ -980,3 +980,7 @@ mod tests_miri {
         }
     }
 }
+
+#[cfg(kani)]
+#[path = "/verif/kani/engine/ab_utils.rs"]
+mod verif_kani;
